@@ -944,6 +944,31 @@ theorem C12_ops_atomic : ∀ a ∈ Mcp.Gen.registryAccesses, oneSection Mcp.Gen.
   have h : (Mcp.Gen.registryAccesses.all fun a => oneSection Mcp.Gen.registryAccesses a) = true := by decide +kernel
   exact fun a ha => List.all_eq_true.1 h a ha
 
+/-- **Check and insert are one critical section.** Over the regenerated per-function table: every function that
+    writes a registry — directly or through the functions it calls — does everything it does under that mutex in
+    ONE critical section (so a register function cannot test for existence through a locking getter and insert
+    later), and every function of a manager type, readers included, has at most one section per mutex. -/
+theorem C12_register_atomic : ∀ f ∈ Mcp.Gen.registryFunctions, atomicFn f = true := by
+  have h : (Mcp.Gen.registryFunctions.all fun f => atomicFn f) = true := by decide +kernel
+  exact fun f hf => List.all_eq_true.1 h f hf
+
+/-- The per-function table is not vacuous: every register / unregister entry point (manager level and public
+    `Server` API) is in it as a writer with exactly one critical section. -/
+theorem C12_mutators_present :
+    ∀ n ∈ expectedMutators, (Mcp.Gen.registryFunctions.any fun f => f.fn == n && f.writes && f.sections == 1) = true := by
+  have h : (expectedMutators.all fun n => Mcp.Gen.registryFunctions.any fun f => f.fn == n && f.writes && f.sections == 1) = true := by
+    decide +kernel
+  exact fun n hn => List.all_eq_true.1 h n hn
+
+/-- The shapes the obligation rejects: a register helper that calls `getResource` (its own read section) before
+    taking the write lock — check-then-act, two sections — and a list function resolving every entry through a
+    locking getter; a read-only dispatcher of another type is accepted. -/
+theorem C12_check_then_act_rejected :
+    atomicFn ⟨t!"resourceManager", t!"mu", t!"resourceManager.storeResource", 2, true⟩ = false ∧
+    atomicFn ⟨t!"resourceManager", t!"mu", t!"Server.RegisterResource", 2, true⟩ = false ∧
+    atomicFn ⟨t!"toolManager", t!"mu", t!"toolManager.getTools", 2, false⟩ = false ∧
+    atomicFn ⟨t!"toolManager", t!"mu", t!"stdioServerInternal.HandleRequest", 2, false⟩ = true := by decide
+
 /-- The table is about the right fields and is not vacuous: the container-typed fields of the three managers
     (and the three notification-handler tables) are exactly the expected ones, and each has a write under the
     write lock and a read under a lock in the table. -/
